@@ -1312,10 +1312,72 @@ func ruleTransferClose(c *Ctx, rule, key string, fr fieldRef, end *ssa.Function)
 func ruleNoFallbackAfterLiteral(c *Ctx, rule string) {
 	p := c.P
 	n := 0
-	for _, fn := range p.SrcFuncs("internal/imapwire") {
+	// literal-attempting decoder methods: Literal itself and every bool method
+	// whose result may be the (un-Expect-ed) result of one of them (String =
+	// Quoted || Literal): their failure can mean "a literal was announced and
+	// refused", with the decoder in its error state
+	attempts := map[string]bool{"(*Decoder).Literal": true}
+	for changed := true; changed; {
+		changed = false
+		for _, fn := range p.SrcFuncs("internal/imapwire") {
+			k := fnKey(fn)
+			if attempts[k] || fn.Signature.Recv() == nil || fn.Signature.Results().Len() != 1 || strings.HasPrefix(fn.Name(), "Expect") {
+				continue
+			}
+			if bt, ok := fn.Signature.Results().At(0).Type().Underlying().(*types.Basic); !ok || bt.Kind() != types.Bool {
+				continue
+			}
+			derives := false
+			seen := map[ssa.Value]bool{}
+			var rec func(v ssa.Value)
+			rec = func(v ssa.Value) {
+				if seen[v] {
+					return
+				}
+				seen[v] = true
+				switch x := v.(type) {
+				case *ssa.Phi:
+					for _, e := range x.Edges {
+						rec(e)
+					}
+				case *ssa.Call:
+					if attempts[callKey(x)] {
+						derives = true
+					}
+				}
+			}
+			for _, r := range returnsOf(fn) {
+				if len(r.Results) == 1 {
+					rec(unspill(r.Results[0]))
+				}
+			}
+			if derives {
+				attempts[k] = true
+				changed = true
+			}
+		}
+	}
+	var names []string
+	for k := range attempts {
+		names = append(names, k)
+	}
+	sort.Strings(names)
+	c.note("literal-attempting decoder methods: %s", strings.Join(names, ", "))
+	// only code the server runs: the refusal of an announced literal exists on
+	// the server only (CheckBufferedLiteralFunc); DiscardValue & co. are used
+	// by the client alone
+	serverReach := staticReach(serverRoots(p), 12) // static calls only: callbacks such as Decoder.List(f) would join client and server code
+	for _, fn := range p.SrcFuncs("internal/imapwire", "imapserver") {
+		root := fn
+		for root.Parent() != nil {
+			root = root.Parent()
+		}
+		if !serverReach[fn] && !serverReach[root] {
+			continue
+		}
 		hasLiteral := false
 		allInstrs(fn, func(i ssa.Instruction) {
-			if call, ok := i.(ssa.CallInstruction); ok && callKey(call) == "(*Decoder).Literal" {
+			if call, ok := i.(ssa.CallInstruction); ok && attempts[callKey(call)] {
 				hasLiteral = true
 			}
 		})
@@ -1328,6 +1390,9 @@ func ruleNoFallbackAfterLiteral(c *Ctx, rule string) {
 				if r, ok := loadedField(a.V); ok && r.is("Decoder", "err") && a.Nil == 1 {
 					add = append(add, "decoder-ok")
 				}
+				if call, _ := callOf(a.V); call != nil && callKey(call) == "(*Decoder).Err" && a.Nil == 1 {
+					add = append(add, "decoder-ok")
+				}
 			}
 			return f.with(add...)
 		})
@@ -1337,15 +1402,24 @@ func ruleNoFallbackAfterLiteral(c *Ctx, rule string) {
 				return
 			}
 			name := calleeObj(call).Name()
-			if name == "Literal" || name == "Err" || name == "returnErr" || name == "Expect" {
+			if attempts[callKey(call)] || name == "Err" || name == "returnErr" || name == "Expect" || name == "DiscardLine" {
 				return
 			}
 			fs, reach := gf.at(i)
-			if !reach || !fs.has("fail:(*Decoder).Literal") {
+			if !reach {
+				return
+			}
+			failed := ""
+			for k := range attempts {
+				if fs.has("fail:" + k) {
+					failed = k
+				}
+			}
+			if failed == "" {
 				return
 			}
 			n++
-			c.check(fs.has("decoder-ok"), rule, fmt.Sprintf("%s: %s after a failed Literal", fnKey(fn), name), i.Pos(),
+			c.check(fs.has("decoder-ok"), rule, fmt.Sprintf("%s: %s after a failed %s", fnKey(fn), name, strings.TrimPrefix(failed, "(*Decoder).")), i.Pos(),
 				"tried only when the decoder is not in its error state (the bytes were not a literal at all)",
 				"after a literal was announced and refused the decoder goes on to parse the following bytes with "+name+": for a synchronising literal the server blocks instead of answering and then swallows the client's next command")
 		})
